@@ -31,12 +31,25 @@ def scenarios(seed, tier):
         stream = ['uncoupled', 'storage', 'any', 'takes'][i % 4]
         if i % 12 == 9:
             stream = 'blocks'
+        if i % 12 == 5:
+            stream = 'storage_ne'
         if stream == 'uncoupled':
             s = gen.gen_portfolio(r2, tmax=12, tz_prob=0.1, kinds=['simple', 'transport', 'multi_nt', 'simple', 'plant_lp'], allow_mip=False,
                                   allow_periodic=False, allow_freq=False)
         elif stream == 'storage':
             s = gen.gen_portfolio(r2, tmax=12, tz_prob=0.1, kinds=['simple', 'transport', 'storage_se', 'storage_se'], allow_mip=False,
                                   allow_periodic=False, allow_freq=False, allow_blocks=False)
+        elif stream == 'storage_ne':
+            # storages whose start level differs from their end level: the per-asset limits on the ORIGINAL grid still have to hold
+            s = gen.gen_portfolio(r2, tmax=12, tz_prob=0.0, kinds=['simple', 'storage', 'storage'], allow_mip=False,
+                                  allow_periodic=False, allow_freq=False, allow_blocks=False)
+            for a in s['assets']:
+                if a['type'] == 'Storage':
+                    size = float(a['args']['size'])
+                    a['args']['start_level'] = gen.q8(r2, 0, size / 4)
+                    a['args']['end_level'] = gen.q8(r2, size / 2, size)
+                    a['args'].pop('start', None)
+                    a['args'].pop('end', None)
         elif stream == 'blocks':
             # storages optimised in time blocks that coincide with the intervals (start level = end level): nothing couples
             s = gen.gen_portfolio(r2, tmax=12, tz_prob=0.0, kinds=['simple', 'storage_se', 'storage_se', 'transport'], allow_mip=False,
@@ -218,7 +231,7 @@ def run_case(scn, drv):
                  what='equals_unsplit_blocks', sign='split_lower' if Vs < Vu else 'split_higher')
         if scn['stream'] == 'storage' and Vs > Vu + tolu:
             viol('storages with start level = end level are the only coupling, but split value %.8g exceeds unsplit %.8g' % (Vs, Vu), what='le_unsplit')
-        if scn['stream'] in ('uncoupled', 'storage', 'takes'):
+        if scn['stream'] in ('uncoupled', 'storage', 'takes', 'storage_ne'):
             # transport the concatenated solution into the unsplit problem: match variables by their mapping rows
             x = transport(rs, rec)
             if x is None:
